@@ -217,6 +217,13 @@ func (l *Lab) FormConfirmed(count int, allowance, collateral types.Currency, dur
 		if err != nil {
 			return nil, fmt.Errorf("%w: honest formation failed: %v", ErrHarness, err)
 		}
+		if l.RenterNode != l.HostNode {
+			// what a real renter does with the returned set: its own pool learns
+			// it, so that its wallet sees the unconfirmed change output
+			if _, err := l.RenterNode.CM.AddV2PoolTransactions(res.FormationSet.Basis, res.FormationSet.Transactions); err != nil {
+				return nil, fmt.Errorf("%w: renter pool rejects honest formation set: %v", ErrHarness, err)
+			}
+		}
 		out = append(out, res.Contract)
 	}
 	if !l.T.WaitQuiescent(CallTimeout) {
